@@ -529,4 +529,17 @@ example : InnerProductGeometry.angle (Octa.vec3 1 (-2) ((1/3 : ℚ) : ℝ))
   simp only [octa_example_round, ev] at h
   simpa using h
 
+/-- non-vacuity of (4): exact encoder oracle, biased decoder oracle, q = 2, n = (1, -2, 1/3) -/
+example := float_angle_bound_q2 Octa.exactDoubleOps 0 (Octa.exactDoubleOps_model 0 (le_refl _))
+  (Octa.biasedNormOps (1/2^24)) (1/2^24)
+  (Octa.biasedNormOps_model _ _ (by rw [abs_of_pos] <;> norm_num)) (le_refl _) (by norm_num)
+  (by norm_num) (by norm_num) ⟨2, 3, 2, 1⟩ (by decide) 1 (-2) (1/3)
+  (by norm_num [abs_of_pos, abs_of_neg])
+
+/-- non-vacuity of (3): q = 10 -/
+example := float_zero_input Octa.exactDoubleOps 0 (Octa.exactDoubleOps_model 0 (le_refl _))
+  (Octa.biasedNormOps (1/2^24)) (1/2^24)
+  (Octa.biasedNormOps_model _ _ (by rw [abs_of_pos] <;> norm_num)) (le_refl _) (by norm_num)
+  (by norm_num) (by norm_num) 10 ⟨10, 1023, 1022, 511⟩ (by decide) (by norm_num)
+
 end Draco
